@@ -144,11 +144,22 @@ class RFrame:
         if name == "sort_index":
             return _Callable(lambda *a, **k: self.derive(sorted_=True))
         if name == "dropna":
-            def dropna(*a, subset=None, **k):
+            def dropna(*a, subset=None, how="any", **k):
+                if a or any(v is not None and v is not False for kk, v in k.items() if kk not in ("axis", "inplace", "ignore_index")) \
+                        or k.get("axis", 0) not in (0, "index") or k.get("inplace") or how not in ("any", "all"):
+                    raise Unsupported("DataFrame.dropna with these arguments (row-wise model)", node)
                 cols = list(subset) if subset is not None else list(self.cells)
-                ok = _and(*[_not(self.cells[c].is_nan()) for c in cols])
-                return self.derive(mult=_ite(ok, self.mult, 0), note=f"dropna({subset})")
+                present = [_not(self.cells[c].is_nan()) for c in cols]
+                ok = _and(*present) if how == "any" else _or(*present)
+                return self.derive(mult=_ite(ok, self.mult, 0), note=f"dropna({subset}, how={how})")
             return _Callable(dropna)
+        if name in ("first_valid_index", "last_valid_index"):
+            def valid_index(*a, **k):
+                # the first / last label whose row has at least one present cell
+                some = _or(*[_not(c.is_nan()) for c in self.cells.values()]) if self.cells else False
+                f = self.derive(mult=_ite(some, self.mult, 0), note="rows with a present cell")
+                return index_extreme(interp, f, "min" if name.startswith("first") else "max")
+            return _Callable(valid_index)
         if name == "rename":
             def rename(*a, columns=None, **k):
                 cells = OrderedDict((columns.get(c, c), v) for c, v in self.cells.items())
@@ -464,6 +475,129 @@ class _OpaqueStamp(SOpaque):
         raise Unsupported(f"Timestamp.{name} of an unknown timestamp", node)
 
 
+class RStamp(_OpaqueStamp):
+    """a Timestamp whose INSTANT is known symbolically (seconds since the epoch, absolute time; its wall-clock fields stay unknown):
+    differences of two such stamps are durations with floor-valued .days, time-zone conversions keep the instant"""
+    pandas_kind = "Timestamp"
+
+    def __init__(self, t, nat=False, label="timestamp"):
+        _OpaqueStamp.__init__(self, label)
+        self.t = t
+        self.nat = nat
+
+    def sym_binop(self, interp, op, l, r, node):
+        if isinstance(op, ast.Sub) and isinstance(l, RStamp) and isinstance(r, RStamp):
+            return RDelta(l.t - r.t, _or(l.nat, r.nat))
+        if isinstance(op, (ast.Add, ast.Sub)) and l is self and isinstance(r, RDelta):
+            return RStamp(self.t + r.sec if isinstance(op, ast.Add) else self.t - r.sec, _or(self.nat, r.nat), "timestamp arithmetic")
+        return _OpaqueStamp("timestamp arithmetic")
+
+    def sym_compare(self, interp, op, l, r, node):
+        if isinstance(l, RStamp) and isinstance(r, RStamp):
+            a, b = l.t, r.t
+            table = {ast.Lt: a < b, ast.LtE: a <= b, ast.Gt: a > b, ast.GtE: a >= b, ast.Eq: a == b, ast.NotEq: a != b}
+            for k, v in table.items():
+                if isinstance(op, k):
+                    some_nat = _or(l.nat, r.nat)
+                    # comparisons with NaT are false (!= is true)
+                    return _or(some_nat, v) if isinstance(op, ast.NotEq) else _and(_not(some_nat), v)
+        raise Unsupported("comparison of a symbolic timestamp with this value", node)
+
+    def sym_getattr(self, interp, name, node):
+        if name in ("astimezone", "tz_convert"):
+            # the same instant on another clock
+            return _Callable(lambda *a, **k: RStamp(self.t, self.nat, self.label))
+        if name == "isoformat":
+            return _Callable(lambda *a, **k: SOpaque(f"{self.label}.isoformat()"))
+        return _OpaqueStamp.sym_getattr(self, interp, name, node)
+
+
+class RDelta:
+    """a duration in seconds (difference of two symbolic instants); .days is the FLOOR of seconds / 86400 (pandas / datetime normalise a
+    negative duration to negative days plus a positive remainder)"""
+    pandas_kind = "Timedelta"
+
+    def __init__(self, sec, nat=False):
+        self.sec = sec
+        self.nat = nat
+
+    def sym_getattr(self, interp, name, node):
+        if name == "days":
+            use(interp, "pd.timedelta_days")
+            d = z3.ToInt(to_real(self.sec) / 86400)
+            if self.nat is False:
+                return d
+            # NaT.days is NaN: an unknown number here (nothing may be concluded about it)
+            return z3.If(to_z3(self.nat), interp.run.fresh_int("days_of_NaT"), d)
+        if name == "total_seconds":
+            return _Callable(lambda: self.sec)
+        raise Unsupported(f"Timedelta.{name} of a symbolic duration", node)
+
+
+assumed("pd.timedelta_days", "Timestamp - Timestamp of two timezone-aware stamps is the elapsed time between the two instants whatever their zones; "
+                             "Timedelta.days is floor(seconds / 86400); astimezone / tz_convert keep the instant")
+assumed("pd.index_extremes", "index.min() / index.max() of a DatetimeIndex are labels of the index, not after / not before every label of it (NaT for "
+                             "an empty index)")
+
+
+def row_instant(interp, frame):
+    """ghost: the instant (epoch seconds) of the arbitrary row's label"""
+    u = frame.universe
+    if "t" not in u:
+        u["t"] = interp.run.input("row.label.epoch_seconds", z3.RealSort())
+    return u["t"]
+
+
+def _valid(formula, ms=1500):
+    sv = z3.Solver()
+    sv.set("timeout", ms)
+    sv.add(z3.Not(formula))
+    return sv.check() == z3.unsat
+
+
+def index_extreme(interp, frame, which):
+    """index.min() / index.max() of a frame: a symbolic instant tied to the arbitrary row by member => min <= t(row) <= max.  Frames derived
+    from the same root share the ghost when their row filters are equivalent FOR EVERY ROW (decided by the solver on the filter conditions alone,
+    whatever their spelling), and the extremes of a frame whose filter implies another's lie inside the other's."""
+    run = interp.run
+    store = run.__dict__.setdefault("_index_extremes", {})
+    mem = frame.member()
+    skey = (frame.root, z3.simplify(mem).sexpr())
+    if skey not in store:
+        same = None
+        narrower, wider = [], []
+        for (root, _), ent in store.items():
+            if root != frame.root:
+                continue
+            a_in_b = _valid(z3.Implies(mem, ent["mem"]))
+            b_in_a = _valid(z3.Implies(ent["mem"], mem))
+            if a_in_b and b_in_a:
+                same = ent
+                break
+            if a_in_b:
+                wider.append(ent)
+            if b_in_a:
+                narrower.append(ent)
+        if same is not None:
+            store[skey] = same
+        else:
+            n = len({id(e) for e in store.values()})
+            lo = run.input(f"index.min.epoch_seconds#{n}", z3.RealSort())
+            hi = run.input(f"index.max.epoch_seconds#{n}", z3.RealSort())
+            nat = run.input(f"index.is_empty#{n}", z3.BoolSort())
+            t = row_instant(interp, frame)
+            run._add(z3.Implies(mem, z3.And(z3.Not(nat), lo <= t, t <= hi)))
+            run._add(z3.Implies(z3.Not(nat), lo <= hi))
+            for w in wider:        # this frame's rows are rows of w
+                run._add(z3.Implies(z3.Not(nat), z3.And(z3.Not(w["nat"]), w["lo"] <= lo, hi <= w["hi"])))
+            for w in narrower:     # w's rows are rows of this frame
+                run._add(z3.Implies(z3.Not(w["nat"]), z3.And(z3.Not(nat), lo <= w["lo"], w["hi"] <= hi)))
+            store[skey] = {"lo": lo, "hi": hi, "nat": nat, "mem": mem}
+    ent = store[skey]
+    use(interp, "pd.index_extremes")
+    return RStamp(ent["lo"] if which == "min" else ent["hi"], ent["nat"], f"index.{which}()")
+
+
 class _IndexDtype:
     unit = "ns"
 
@@ -571,7 +705,7 @@ class RIndex:
         if name == "inferred_freq":
             return getattr(self.frame, "inferred_freq", SOpaque("inferred_freq"))
         if name in ("max", "min"):
-            return _Callable(lambda *a, **k: _OpaqueStamp(f"index.{name}()"))
+            return _Callable(lambda *a, **k: index_extreme(interp, self.frame, name))
         if name == "copy":
             return _Callable(lambda *a, **k: RIndex(self.frame))
         if name == "dtype":
@@ -1378,6 +1512,35 @@ def install():
         nn = _not(cell.is_nan())
         interp.run._add(z3.Implies(z3.And(f.member(), to_z3(nn) if not isinstance(nn, bool) else z3.BoolVal(nn)), h))
         return h
+
+    @libmodels.api("label_seconds")
+    def _label_seconds(interp, args, kwargs, node, frame):
+        return row_instant(interp, args[0])
+
+    @libmodels.api("index_min_seconds")
+    def _index_min_seconds(interp, args, kwargs, node, frame):
+        return index_extreme(interp, args[0], "min").t
+
+    @libmodels.api("index_max_seconds")
+    def _index_max_seconds(interp, args, kwargs, node, frame):
+        return index_extreme(interp, args[0], "max").t
+
+    @libmodels.api("index_is_empty")
+    def _index_is_empty(interp, args, kwargs, node, frame):
+        return index_extreme(interp, args[0], "min").nat
+
+    @libmodels.api("stamp")
+    def _stamp(interp, args, kwargs, node, frame):
+        """a symbolic timezone-aware Timestamp (never NaT)"""
+        return RStamp(interp.run.input(f"{args[0]}.epoch_seconds", z3.RealSort()), False, args[0])
+
+    @libmodels.api("stamp_seconds")
+    def _stamp_seconds(interp, args, kwargs, node, frame):
+        return args[0].t
+
+    @libmodels.api("floor_days")
+    def _floor_days(interp, args, kwargs, node, frame):
+        return z3.ToInt(to_real(args[0]) / 86400)
 
     @libmodels.api("next_days")
     def _next_days(interp, args, kwargs, node, frame):
